@@ -9,39 +9,33 @@ import re
 RNG_CRATES = ('rand', 'rand_distr', 'rand_core', 'rand_chacha', 'getrandom')
 
 
+PREFIXES = ('intrinsic:', 'virtual:', 'once-shim:', 'fnptr-shim:', 'drop-glue:', 'clone-shim:', 'shim:', 'unresolved:', 'indirect:')
+
+
 def node_path(n):
+    """def-path of a graph node (`[kind:]crate@path|generic args`)"""
     p = n.split('|')[0]
-    for pre in ('intrinsic:', 'virtual:', 'once-shim:', 'fnptr-shim:', 'drop-glue:', 'clone-shim:', 'shim:', 'unresolved:', 'indirect:'):
+    for pre in PREFIXES:
         if p.startswith(pre):
             p = p[len(pre):]
+    if '@' in p.split('::')[0].split('<')[0]:
+        p = p.split('@', 1)[1]
     return p
 
 
 def node_crate(n):
-    """crate that defines the function of a node (for `<T as Trait>::f` the crate of the impl is
-    unknown from the string: both T's and Trait's crates are returned)"""
-    p = node_path(n)
-    if p.startswith('<'):
-        m = re.match(r'<(.*) as (.*)>::', p)
-        if m:
-            return {first_seg(m.group(1)), first_seg(m.group(2))}
-        return {first_seg(p[1:])}
-    return {first_seg(p)}
-
-
-def first_seg(p):
-    p = p.lstrip('&').replace('mut ', '').lstrip('(').lstrip('[')
-    return p.split('::')[0].split('<')[0].strip()
+    """crate that *defines* the function of a node (from the compiler, not from the printed path,
+    which may go through re-exports such as rand_distr::num_traits)"""
+    p = n.split('|')[0]
+    for pre in PREFIXES:
+        if p.startswith(pre):
+            p = p[len(pre):]
+    head = p.split('::')[0].split('<')[0]
+    return head.split('@')[0] if '@' in head else ''
 
 
 def is_rng(n):
-    p = node_path(n)
-    if p.startswith('<'):
-        # a trait method of the rand family, or a method of a rand type
-        m = re.match(r'<(.*) as (.*)>::', p)
-        if m:
-            return first_seg(m.group(2)) in RNG_CRATES or (first_seg(m.group(1)) in RNG_CRATES)
-    return first_seg(p) in RNG_CRATES
+    return node_crate(n) in RNG_CRATES
 
 
 def reach(crate, root_suffix):
